@@ -306,7 +306,7 @@ func walk(r *simkit.Run, prop string) {
 		simkit.Harnessf("observer: %v", err)
 	}
 	defer obs.Close()
-	g := &Gen{T: t}
+	g := &Gen{T: t, NoRefToNamesake: prop != "C01"}
 	faultFree := t.Chance("fault-free-run", 1, 3)
 	if faultFree {
 		r.Tag("fault-free")
@@ -316,6 +316,15 @@ func walk(r *simkit.Run, prop string) {
 	indent := t.Chance("indent", 1, 2)
 	maxTables := t.Range("max-tables", 1, 4)
 	desired := &Sch{}
+	// A recorded C01 finding with a name of its own: some table references a table called new_<x>
+	// while <x> exists; when <x> is rebuilt in the same plan, the RENAME of its temporary table new_<x>
+	// makes SQLite point that reference at <x>. The apply succeeds and the database is not the
+	// desired one, whichever of the convergence checks notices first.
+	defer func() {
+		if sig := r.Signature(); prop == "C01" && refsNamesake(desired) && (strings.HasPrefix(sig, "C01/residual-diff/") || strings.HasPrefix(sig, "C01/catalog-differs-from-reference/") || strings.HasPrefix(sig, "C01/cli-second-apply-not-synced/")) {
+			r.Reclass("not-converged/reference-to-a-table-named-like-a-rebuild-temporary")
+		}
+	}()
 	steps := t.Range("steps", 3, 8)
 	cell := 0
 	valid := func(s *Sch) error {
@@ -883,6 +892,19 @@ func retryOnEmpty(ctx context.Context, w *world, obs *sql.DB, changes []schema.C
 		return false, err
 	}
 	return tx.Commit() == nil, nil
+}
+
+// refsNamesake reports whether some table of s references another table called new_<x> while <x> is
+// a table of s too.
+func refsNamesake(s *Sch) bool {
+	for _, tb := range s.Tables {
+		for _, f := range tb.FKs {
+			if strings.HasPrefix(f.RefTable, "new_") && f.RefTable != "new_"+tb.Name && s.Table(strings.TrimPrefix(f.RefTable, "new_")) != nil {
+				return true
+			}
+		}
+	}
+	return false
 }
 
 // checkConverged is the C01 oracle after a successful apply.
